@@ -126,6 +126,11 @@ def _check_transient_one(case, r: R):
             got[('P', i)] = np.asarray(sol.get_power(i)[1], dtype=float)
     if len(got) != len(exp) + len(ref.ids):
         return
+    with r.lib('queries-repeated'):
+        for i in ref.ids:          # querying is read-only: the same question gives the same answer after other queries
+            if not np.array_equal(np.asarray(sol.get_voltage(i)[1], dtype=float), got[('V', i)]) or \
+                    not np.array_equal(np.asarray(sol.get_current(i)[1], dtype=float), got[('I', i)]):
+                r.fail('query-not-repeatable', f'{i!r}: voltage/current series differ when queried again after the power')
     kind_of = {c['id']: c['kind'] for c in comps}
     for key, want in exp.items():
         y = got[key]
